@@ -28,6 +28,7 @@ ap.add_argument("--files", default="")
 ap.add_argument("--seed", type=int, default=1)
 ap.add_argument("--all-checks", action="store_true", help="run every check on survivors of the anchored ones")
 ap.add_argument("--retest-survivors", action="store_true", help="only re-run the recorded SURVIVED mutants (with --all-checks: against all checks)")
+ap.add_argument("--related", action="store_true", help="on survivors also run the checks of properties about the same subsystem")
 ap.add_argument("--full-quick", action="store_true", help="run all shards of the quick tier instead of shard 0 only")
 ap.add_argument("--only", default="", help="comma separated mutant keys to (re)run")
 args = ap.parse_args()
@@ -101,6 +102,22 @@ print("files %d, mutants %d" % (len(files), len(work)), flush=True)
 
 lock = threading.Lock()
 queue = collections.deque(work)
+
+RELATED = [
+    ("internal/consoleui", "C22 C23 C24 C26 C29 C30 C31 C32"), ("cmd/", "C26 C22"),
+    ("internal/deps", "C05 C06 C07 C08 C23 C31 C26"),
+    ("internal/exprtransform", "C09 C10 C11 C12 C13 C28 C01 C03 C18"), ("pkg/expr", "C27 C11 C12 C10 C09 C01 C03 C28"),
+    ("internal/state", "C14 C15 C16 C17 C18 C03 C04 C32"), ("internal/emulator", "C03 C04 C05 C22"),
+    ("internal/riscv", "C01 C02 C25 C03 C21 C26"), ("internal/opcode", "C19 C02 C21"), ("internal/parser", "C21 C26 C03"),
+    ("internal/elf", "C20 C26 C21"),
+]
+
+def related(f):
+    out = []
+    for pre, ps in RELATED:
+        if f.startswith(pre):
+            out += ps.split()
+    return out
 
 def rapid_seed(verif_seed, shard, pid):
     h = 0
@@ -182,6 +199,8 @@ def worker(k):
                         rec["status"] = "harness does not build"; rec["by"] = out[-300:]
                     else:
                         order = list(anch.get(f, []))
+                        if args.related:
+                            order += [p for p in related(f) if p not in order]
                         if args.all_checks:
                             order += [p for p in sorted(checks) if p not in order]
                         rec["status"] = "SURVIVED"
